@@ -2,6 +2,9 @@
 // (the library API, as an application embedding the generator would use it).  Both calls must
 // succeed and write the same files.  usage: twice <schema.xml> <types.xml> <dirA> <dirB>; the two
 // directories must have the same last element (it is the package name).
+// With two more arguments <types2.xml> <dirC>: a second Generator is then built on the SAME parsed schema with the
+// other type mapping and executed into dirC (the caller compares dirC with a fresh generation for that mapping):
+// a generator must not leave anything of its own run behind in the schema object it was given.
 package main
 
 import (
@@ -61,6 +64,22 @@ func main() {
 		if !bytes.Equal(ma[n], mb[n]) {
 			fmt.Printf("FAIL %s differs between the first and the second Execute\n", n)
 			os.Exit(1)
+		}
+	}
+	if len(os.Args) >= 7 {
+		config2 := &generator.Config{}
+		if err := utils.ParseXML(os.Args[5], config2); err != nil {
+			fmt.Println("HARNESS parse types2:", err)
+			os.Exit(3)
+		}
+		c := os.Args[6]
+		if err := os.MkdirAll(c, 0o755); err != nil {
+			fmt.Println("HARNESS mkdir:", err)
+			os.Exit(3)
+		}
+		if err := generator.NewGenerator(doc, config2, filepath.Base(c)).Execute(c); err != nil {
+			fmt.Printf("FAIL execute with the second mapping on the shared schema: %v\n", err)
+			os.Exit(4)
 		}
 	}
 	fmt.Println("OK", len(na), "files")
